@@ -38,7 +38,7 @@ def _calc_lens(tier):
 
 
 def _rx_payloads(tier):
-    return [0, 2] if tier == "quick" else [0, 1, 2, 3]
+    return [0, 2] if tier == "quick" else [0, 1, 2]
 
 
 def instances(tier):
